@@ -8,6 +8,7 @@ import (
 	"io"
 	"os"
 	"os/exec"
+	"slices"
 	"strconv"
 	"strings"
 	"sync"
@@ -225,6 +226,9 @@ func (r *c16) Exec(op []string) string {
 		if len(in) > 20 {
 			r.st.Note("long-input")
 		}
+		if len(in) > 4096 {
+			r.st.Note("input>4096-bytes(bufio-refill)")
+		}
 		return fmt.Sprintf("fields=%s ok=%s", c15fields(fs), fmtBool(ok))
 	case "shsplit":
 		var ins [][]byte
@@ -301,8 +305,8 @@ func genC16(g *G) {
 			flush()
 		}
 	}
-	// every single byte, and the empty string (every shard: cheap)
-	single := func(b []byte) { g.Case([]string{"reset", "split " + c15hex(b)}) }
+	// every single byte, and the empty string (dealt to the shards)
+	single := func(b []byte) { g.Each([]string{"reset", "split " + c15hex(b)}) }
 	single(nil)
 	for c := 0; c < 256; c++ {
 		single([]byte{byte(c)})
@@ -333,6 +337,18 @@ func genC16(g *G) {
 		add(c16random(g, 8+g.Intn(g.Scale(120, 400))))
 	}
 	flush()
+	// a few inputs longer than the 4096-byte buffer of the bufio.Reader under the Scanner (one and two refills;
+	// a token, a quoted string or a backslash pair straddling the boundary)
+	for i := 0; i < g.Scale(3, 40); i++ {
+		b := c16random(g, 4090+g.Intn(g.Scale(20, 5000)))
+		if i%3 == 1 { // one long quoted run across the boundary
+			for j := 4000; j < 4200 && j < len(b); j++ {
+				b[j] = "ab \t"[g.Intn(4)]
+			}
+			b[3990] = '"'
+		}
+		g.Case([]string{"reset", "split " + c15hex(b)})
+	}
 	// the two shells on eligible inputs
 	if c15haveShells() {
 		batches := g.Scale(25, 300)
@@ -427,6 +443,9 @@ func c16NewReader(h, tail, frag string, st *Stats) *c16Reader {
 	if strings.Contains(flags, "z") {
 		r.zero = true
 		st.Note("zero-length-reads")
+	}
+	if len(r.data) > 4096 {
+		st.Note("input>4096-bytes(bufio-refill)")
 	}
 	return r
 }
@@ -581,17 +600,21 @@ func genC16Scanner(g *G) {
 			}
 			toks, _ := shell.Split(string(b))
 			frags := c16frags(n)
-			for fi, frag := range frags {
-				tail := "eof"
-				flag := ""
-				switch (fi + idx) % 5 {
-				case 1:
-					flag = "/e"
-				case 2:
-					tail = "fail"
-				case 3:
-					flag = "/z"
+			// reader variants: for inputs to length 2 (thorough 3) EVERY variant with every set of cut points;
+			// for the longer ones one variant per (input, cut set), rotating
+			type variant struct{ tail, flag string }
+			variants := []variant{{"eof", ""}, {"eof", "/e"}, {"fail", ""}, {"eof", "/z"}, {"eof", ""}, {"fail", "/e"}, {"fail", "/z"}, {"eof", "/ez"}, {"fail", "/ez"}}
+			for fv := 0; fv < len(frags)*len(variants); fv++ {
+				fi, vi := fv/len(variants), fv%len(variants)
+				frag := frags[fi]
+				if n > g.Scale(2, 3) {
+					if vi != (fi+idx)%5 {
+						continue
+					}
+				} else if vi == 4 {
+					continue // the duplicate of the plain variant (kept in the list for the rotation above)
 				}
+				tail, flag := variants[vi].tail, variants[vi].flag
 				for restAt := 0; restAt <= len(toks)+1; restAt++ {
 					ops := []string{fmt.Sprintf("reset new %s %s %s%s", c15hex(b), tail, frag, flag)}
 					for i := 0; i < restAt; i++ {
@@ -608,6 +631,31 @@ func genC16Scanner(g *G) {
 				g.Case(ops)
 			}
 		})
+	}
+	// (a') inputs longer than the 4096-byte bufio buffer: Next up to a random token, Rest across the refill
+	// boundary (what Rest returns is the buffered remainder followed by the unread part of the reader)
+	for c := 0; c < g.Scale(8, 80); c++ {
+		b := c16random(g, 4090+g.Intn(g.Scale(20, 5000)))
+		toks, _ := shell.Split(string(b))
+		tail := g.Pick("eof", "eof", "fail")
+		frag := "all"
+		switch c % 4 {
+		case 1:
+			frag = fmt.Sprintf("c%d,%d,%d", 4095, 4096, 4097)
+		case 2:
+			frag = fmt.Sprintf("c%d", 1+g.Intn(4089)) + g.Pick("", "/e", "/z")
+		case 3:
+			frag = "b1"
+		}
+		ops := []string{fmt.Sprintf("reset new %s %s %s", c15hex(b), tail, frag)}
+		for i, k := 0, g.Intn(len(toks)+2); i < k; i++ {
+			ops = append(ops, "next")
+		}
+		ops = append(ops, "rest", "next", "rest")
+		g.Case(ops)
+		ops = []string{fmt.Sprintf("reset new %s %s %s", c15hex(b), tail, frag)}
+		ops = append(ops, g.Pick("split", fmt.Sprintf("each %d", len(toks)+1)), "next", "rest")
+		g.Case(ops)
 	}
 	// (b) random longer inputs, random fragmentation, random use of the API incl. Reset
 	for c := 0; c < g.Scale(400, 8000); c++ {
@@ -715,6 +763,9 @@ func (r *c15) Exec(op []string) string {
 	case "shjoin":
 		ss := c15strings(op[1:])
 		r.st.Note("shell-oracle")
+		if len(ss) >= 8 && len(ss[0]) >= 2 && !slices.ContainsFunc(ss, func(s string) bool { return len(s) != len(ss[0]) }) {
+			r.st.Note("shell-oracle-on-exhaustive-short-strings")
+		}
 		if !c15haveShells() {
 			return "sh=unavailable"
 		}
@@ -788,15 +839,11 @@ func genC15(g *G) {
 			flush()
 		}
 	}
-	// every single byte value, the empty string
-	add("quote .")
-	add("join")
-	add("join .")
-	add("join . .")
-	flush()
+	// every single byte value, the empty string (fixed cases: dealt to the shards)
+	g.Each([]string{"reset", "quote .", "join", "join .", "join . ."})
 	for c := 0; c < 256; c++ {
 		// one input per case: a failure here is reported as a minimal input
-		g.Case([]string{"reset", "quote " + c15hex([]byte{byte(c)})})
+		g.Each([]string{"reset", "quote " + c15hex([]byte{byte(c)})})
 	}
 	// all strings over the 16-symbol alphabet
 	maxLen := g.Scale(3, 4)
@@ -860,6 +907,36 @@ func genC15(g *G) {
 				}
 				g.Case([]string{"reset", line})
 			}
+		}
+		// the exhaustive short strings also go to the shells, 32 words per shell call: every two-symbol string
+		// over the 16-symbol alphabet, every two-symbol string over the metacharacters that are not in it, and a
+		// sample of the three-symbol strings (one in 8, a different residue class per seed; thorough: all, and one
+		// in 16 of the four-symbol strings).  NUL cannot be passed to a shell and is not in the alphabet.
+		var words [][]byte
+		c16enum(c15alpha, 2, func(b []byte) { words = append(words, slices.Clone(b)) })
+		c16enum([]byte("&<>()?[~% 'a"), 2, func(b []byte) { words = append(words, slices.Clone(b)) })
+		pick, k := g.Scale(8, 1), 0
+		off := int(c13genSeed()/1000) % pick
+		c16enum(c15alpha, 3, func(b []byte) {
+			if k%pick == off {
+				words = append(words, slices.Clone(b))
+			}
+			k++
+		})
+		if g.Thorough() {
+			c16enum(c15alpha, 4, func(b []byte) {
+				if k%16 == off {
+					words = append(words, slices.Clone(b))
+				}
+				k++
+			})
+		}
+		for lo := 0; lo < len(words); lo += 32 {
+			line := "shjoin"
+			for _, w := range words[lo:min(lo+32, len(words))] {
+				line += " " + c15hex(w)
+			}
+			g.Each([]string{"reset", line})
 		}
 		for i := 0; i < g.Scale(40, 500); i++ {
 			line := "shjoin"
